@@ -164,7 +164,7 @@ Proof.
   intros He Hc. unfold char_text. rewrite He.
   assert (Hok : char_case_ok r = true).
   { destruct (N.lt_ge_cases r 128); [apply char_small; assumption|apply char_high; [assumption|]].
-    unfold char_readable in Hc. apply andb_true_iff in Hc as [Hc _]. apply andb_true_iff in Hc as [Hc _]. exact Hc. }
+    unfold char_readable in Hc. apply andb_true_iff in Hc as [Hc _]. exact Hc. }
   unfold char_case_ok in Hok. apply andb_true_iff in Hok as [Hok Hcls]. apply andb_true_iff in Hok as [Hres Hne].
   destruct (resolve_char (char_name r)) as [[| | | | | |r'| | | | | |]|] eqn:E; try discriminate Hres. apply N.eqb_eq in Hres. subst r'.
   exists (TLeaf (LChar (char_name r))), (OChr r). split.
